@@ -402,13 +402,26 @@ HttpHeader::update(HttpHeader const *fresh)
     assert(fresh);
     assert(this != fresh);
 
+    // Hop-by-hop fields of the fresh message (including those nominated by its
+    // Connection field) describe the connection that delivered it. They must
+    // neither be stored nor replace the stored Connection field, which still
+    // nominates the stored hop-by-hop fields to be removed when relaying.
+    String freshConnection;
+    if (fresh->has(Http::HdrType::CONNECTION))
+        (void) fresh->getList(Http::HdrType::CONNECTION, &freshConnection);
+    const auto skipEntry = [&](const HttpHeaderEntry &entry) {
+        return skipUpdateHeader(entry.id) ||
+               Http::HeaderLookupTable.lookup(entry.id).hopbyhop ||
+               (freshConnection.size() > 0 && strListIsMember(&freshConnection, entry.name, ','));
+    };
+
     const HttpHeaderEntry *e;
     HttpHeaderPos pos = HttpHeaderInitPos;
 
     while ((e = fresh->getEntry(&pos))) {
         /* deny bad guys (ok to check for Http::HdrType::OTHER) here */
 
-        if (skipUpdateHeader(e->id))
+        if (skipEntry(*e))
             continue;
 
         if (e->id != Http::HdrType::OTHER)
@@ -421,7 +434,7 @@ HttpHeader::update(HttpHeader const *fresh)
     while ((e = fresh->getEntry(&pos))) {
         /* deny bad guys (ok to check for Http::HdrType::OTHER) here */
 
-        if (skipUpdateHeader(e->id))
+        if (skipEntry(*e))
             continue;
 
         debugs(55, 7, "Updating header '" << Http::HeaderLookupTable.lookup(e->id).name << "' in cached entry");
